@@ -18,6 +18,9 @@ spec["array_diff_float_branches"] = [ [gallina-prefix, ptr1, ptr2, diffvar], ...
       leaves no trace.  fabs vs fabsf, (float32) vs (float64) therefore change the generated term.
 spec["switch_scrutinee"] = [ [file, function, marker-text-inside-the-switch, gallina-name, c-variable], ... ]
    -> Definition name (nt : Z) : Z := the switch's controlling expression with c-variable := nt
+spec["exprs"] = [ [file, function, anchor-regex, nth, gallina-name, [params], {c-subexpr: ident}], ... ]
+   -> Definition name params : Z := untyped translation (gen_consts.P, a C truth value is 0/1) of group 1 of the
+      nth match (0-based; the regex must match more than nth times) of the anchor inside the function body
 spec["call_args"] = [ [file, function, callee, argindex, gallina-name, [params], {c-subexpr: ident}], ... ]
    -> Definition name params : Z := untyped translation of that argument (casts to uint32 etc. dropped only when
       listed in the substitution map)
@@ -380,6 +383,21 @@ def emit(repo, spec, H):
         term = H.P(re.sub(r"\b%s\b" % re.escape(cvar), " nt ", cexpr), ["nt"], env).ternary_all()
         out.append("(* %s: %s: switch (%s) *)" % (ff, fn, cexpr))
         out.append("Definition %s (nt : Z) : Z := %s." % (name, term))
+    for ff, fn, anchor, nth, name, params, subst in spec.get("exprs", []):
+        body = H.func_body(H.src(repo, ff), fn)
+        ms = list(re.finditer(anchor, body))
+        if len(ms) <= nth:
+            raise ValueError("%s:%s: anchor %r matched %d times (need more than %d)" % (ff, fn, anchor, len(ms), nth))
+        cexpr = " ".join(ms[nth].group(1).split())
+        e = cexpr
+        for k in sorted(subst, key=len, reverse=True):
+            e = e.replace(k, " %s " % subst[k])
+        env = {}
+        env.update(H.all_enums(H.src(repo, ff)))
+        env.update(H.defines(repo, ff))
+        term = H.P(e, params, env).ternary_all()
+        out.append("(* %s: %s: %s *)" % (ff, fn, cexpr.replace("*)", "* )").replace("(*", "( *")))
+        out.append("Definition %s %s : Z := %s." % (name, " ".join("(%s : Z)" % p_ for p_ in params), term))
     for ent in spec.get("call_args", []):
         ff, fn, callee, idx, name, params, subst = ent
         body = H.func_body(H.src(repo, ff), fn)
